@@ -17,14 +17,15 @@ import (
 
 func c16GenRules(rt *rapid.T, incoming bool) []fwrRule {
 	n := rapid.SampledFrom([]int{0, 1, 1, 2, 2, 3, 3, 4, 5, 6, 8}).Draw(rt, "nRules")
-	rules := make([]fwrRule, 0, n)
-	for i := 0; i < n; i++ {
-		// most rules in the direction probed, some in the other one (they must never decide)
-		dir := incoming
-		if rapid.IntRange(0, 4).Draw(rt, "otherDir") == 0 {
-			dir = !incoming
+	rules := fwrGenRuleSet(rt, n, incoming, 5)
+	// a quarter of the rule sets live in ONE proto/port/CA bucket of the real table, so that the
+	// merged per-bucket structures (shared Any, Hosts, CIDR tree, group list) carry several rules
+	if n >= 2 && rapid.IntRange(0, 3).Draw(rt, "oneBucket") == 0 {
+		for i := range rules {
+			rules[i].Incoming, rules[i].Proto = rules[0].Incoming, rules[0].Proto
+			rules[i].Start, rules[i].End = rules[0].Start, rules[0].End
+			rules[i].CAName, rules[i].CASha = rules[0].CAName, rules[0].CASha
 		}
-		rules = append(rules, fwrGenRule(rt, dir))
 	}
 	return rules
 }
@@ -89,7 +90,11 @@ func TestC16_VerdictsMatchReference(t *testing.T) {
 			if !c16LocalIsOverlay(n, p) {
 				unsafeLocal = "local-in-unsafe-net"
 			}
-			vk.Case("C16", fmt.Sprintf("%s#%+v#%v", envKey, p, dir), nt, lab, proto, frag, simple, unsafeLocal)
+			nested := ""
+			if allowed && fwrLessSpecificDecides(rules, n, peer, fwrTrusted, p, dir) {
+				nested = "allow-only-via-less-specific-cidr"
+			}
+			vk.Case("C16", fmt.Sprintf("%s#%+v#%v", envKey, p, dir), nt, lab, proto, frag, simple, unsafeLocal, nested)
 			if nt && vk.WantSample("C16") {
 				vk.Sample("C16", map[string]any{"rules": fmt.Sprint(rules), "node": fmt.Sprintf("%+v", n), "peer": fmt.Sprintf("%+v", peer),
 					"packet": fmt.Sprintf("%+v", p), "incoming": dir, "allowed": allowed, "deciding": deciding, "nearMiss": near})
